@@ -19,7 +19,8 @@ func init() {
 		Explanation: "Necessary conditions decided on every path (lock identity is type-based): R1 lockset — every access to a mutable field of a mutex-bearing ocimem struct (Registry.repos; Buffer.buf/checkStartOffset/committed/desc/commitErr, found as the fields stored to outside constructors) and every map operation on the maps reachable from Registry.repos (repository.tags/manifests/blobs/uploads) happens with that struct's mutex held, where held = acquired on all paths in the function and not released, plus held-at-entry computed as a greatest fixpoint over the VTA call graph (closures called through iterator parameters included; go statements start with nothing held; deferred calls hold what is released by earlier-registered deferred unlocks); stored blobs are immutable (no store to a blob field outside its literal); " +
 			"R2 atomic sections — no Interface method of *Registry performs two successive critical sections of Registry.mu where the second consumes a value produced by the first (check-then-act); " +
 			"R3 seal — every append to Buffer.buf is dominated, inside the same critical section, by a test that the buffer is not yet committed, so the digest verified at commit is the digest of the bytes stored; " +
-			"R4 the lock-order graph (acquire B while holding A) is acyclic.",
+			"R4 the lock-order graph (acquire B while holding A) is acyclic. " +
+			"R6 Buffer.Commit reports success only after the commit function returned nil in this call; R7 the server answers a manifest GET by tag with the single backend call GetTag.",
 		NotDecided: "linearizability of histories itself, and races that a lockset abstraction cannot see (none known: ocimem uses no atomics or channels); behaviour through ociserver relies on the same registry methods.",
 		Technique:  "static analysis: lockset dataflow + greatest-fixpoint held-at-entry over the VTA call graph, critical-section counting, lock-order graph",
 	})
